@@ -33,16 +33,21 @@ const ZXSTRF_COMPRESSED: u32 = 1;
 const ZXST_HEADER_SIZE: usize = 8; // The zx-state header
 const ZXST_BLOCK_HEADER_SIZE: usize = 8; // The header for each block
 
+// Minimal sizes of the blocks which are processed by the loader
+const ZXST_Z80R_BLOCK_MIN_SIZE: usize = 37;
+const ZXST_SPCR_BLOCK_MIN_SIZE: usize = 4;
+const ZXST_AY_BLOCK_MIN_SIZE: usize = 18;
+const ZXST_KEYB_BLOCK_MIN_SIZE: usize = 5;
+const ZXST_AMXM_BLOCK_MIN_SIZE: usize = 1;
+const ZXST_RAMP_BLOCK_HEADER_SIZE: usize = 3;
+
 // Process Creator (CRTR) block
-fn process_crtr_block<H: Host>(_: &mut Emulator<H>, block_data: &[u8]) {
-    let crtr_name_bytes = &block_data[0..33];
-    let _ = from_utf8(crtr_name_bytes).unwrap();
-    let _ = u16::from_le_bytes([block_data[33], block_data[34]]);
-    let _ = u16::from_le_bytes([block_data[35], block_data[36]]);
+fn process_crtr_block<H: Host>(_: &mut Emulator<H>, _block_data: &[u8]) {
+    // Creator name and version are informational only
 }
 
 // Process ZXSTZ80REGS (Z80R) block
-fn process_z80r_block<H: Host>(emulator: &mut Emulator<H>, block_data: &[u8]) {
+fn process_z80r_block<H: Host>(emulator: &mut Emulator<H>, block_data: &[u8]) -> Result<()> {
     // Snapshot replaces whole CPU state: pending prefix of the previously
     // running program must not leak into it (HALT and EI delay are set below)
     emulator.cpu.reset_transient_state();
@@ -138,15 +143,20 @@ fn process_z80r_block<H: Host>(emulator: &mut Emulator<H>, block_data: &[u8]) {
     emulator.cpu.regs.set_iff2(block_data[27] > 0);
 
     // IM
+    if block_data[28] > 2 {
+        return Err(SnapshotLoadError::InvalidSZXFile.into());
+    }
     emulator.cpu.set_im(block_data[28]);
 
     // dwCyclesStart
-    emulator.controller.frame_clocks = u32::from_le_bytes([
+    let frame_clocks = u32::from_le_bytes([
         block_data[29],
         block_data[30],
         block_data[31],
         block_data[32],
     ]) as usize;
+    emulator.controller.frame_clocks =
+        frame_clocks % emulator.settings.machine.specs().clocks_frame;
 
     // chHoldIntReqCycles
     // Ignored block_data 33
@@ -170,6 +180,8 @@ fn process_z80r_block<H: Host>(emulator: &mut Emulator<H>, block_data: &[u8]) {
         .cpu
         .regs
         .set_mem_ptr(u16::from_le_bytes([block_data[35], block_data[36]]));
+
+    Ok(())
 }
 
 // Process ZXSTSPECREGS (SPCR) block
@@ -203,7 +215,7 @@ fn process_spcr_block<H: Host>(emulator: &mut Emulator<H>, machine_id: u32, bloc
     let clocks = emulator.controller.frame_clocks;
     emulator
         .controller
-        .set_border_color(clocks, ZXColor::from_bits(block_data[0]));
+        .set_border_color(clocks, ZXColor::from_bits(block_data[0] & 0x07));
 }
 
 // Process ZXSTAYBLOCK (AY00)
@@ -284,6 +296,15 @@ fn process_ramp_block<H: Host>(
         };
     }
 
+    // Page should exist on the emulated machine
+    let pages_count = match emulator.settings.machine {
+        ZXMachine::Sinclair48K => 3,
+        ZXMachine::Sinclair128K => 8,
+    };
+    if page_num >= pages_count {
+        return Err(SnapshotLoadError::InvalidSZXFile.into());
+    }
+
     let page_data = emulator.controller.memory.ram_page_data_mut(page_num);
 
     if flags & ZXSTRF_COMPRESSED != 0 {
@@ -294,17 +315,21 @@ fn process_ramp_block<H: Host>(
         {
             let compressed_data: Vec<u8> = block_data[3..].to_vec();
             match decompress_zlib_stream(&compressed_data) {
-                Ok(data) => {
+                Ok(data) if data.len() >= page_data.len() => {
                     return {
                         page_data.copy_from_slice(&data[..page_data.len()]);
                         Ok(())
                     }
                 }
+                Ok(_) => return Err(SnapshotLoadError::InvalidSZXFile.into()),
                 Err(_) => return Err(SnapshotLoadError::InvalidSZXFile.into()),
             }
         }
     } else {
-        let uncompressed_data: Vec<u8> = block_data[3..].to_vec();
+        let uncompressed_data = &block_data[3..];
+        if uncompressed_data.len() < page_data.len() {
+            return Err(SnapshotLoadError::InvalidSZXFile.into());
+        }
         page_data.copy_from_slice(&uncompressed_data[..page_data.len()]);
     }
 
@@ -327,7 +352,7 @@ where
     H: Host,
     A: LoadableAsset + SeekableAsset,
 {
-    let _ = asset.seek(SeekFrom::End(0))?;
+    let file_size = asset.seek(SeekFrom::End(0))?;
     let mut cursor_pos = 0;
     asset.seek(SeekFrom::Start(0))?;
 
@@ -374,8 +399,14 @@ where
             block_header[2],
             block_header[3],
         ];
-        let id_str = from_utf8(id_bytes).unwrap().to_uppercase();
+        // Block ids are ASCII; anything else is an unknown block, which is skipped
+        let id_str = from_utf8(id_bytes).unwrap_or("").to_uppercase();
         cursor_pos += ZXST_BLOCK_HEADER_SIZE;
+
+        // Block can't be bigger than the rest of the file
+        if size as usize > file_size.saturating_sub(cursor_pos) {
+            return Err(SnapshotLoadError::InvalidSZXFile.into());
+        }
 
         // ZXST Block Data
         asset.seek(SeekFrom::Start(cursor_pos))?;
@@ -385,12 +416,26 @@ where
             return Err(SnapshotLoadError::InvalidSZXFile.into());
         }
 
+        // Blocks which are shorter than the fields read from them are malformed
+        let min_size = match id_str.as_str() {
+            "Z80R" => ZXST_Z80R_BLOCK_MIN_SIZE,
+            "SPCR" => ZXST_SPCR_BLOCK_MIN_SIZE,
+            "AY\0\0" => ZXST_AY_BLOCK_MIN_SIZE,
+            "KEYB" => ZXST_KEYB_BLOCK_MIN_SIZE,
+            "AMXM" => ZXST_AMXM_BLOCK_MIN_SIZE,
+            "RAMP" => ZXST_RAMP_BLOCK_HEADER_SIZE,
+            _ => 0,
+        };
+        if block_data.len() < min_size {
+            return Err(SnapshotLoadError::InvalidSZXFile.into());
+        }
+
         match id_str.as_str() {
             "CRTR" => {
                 process_crtr_block(emulator, &block_data);
             }
             "Z80R" => {
-                process_z80r_block(emulator, &block_data);
+                process_z80r_block(emulator, &block_data)?;
             }
             "SPCR" => {
                 process_spcr_block(emulator, machine_id, &block_data);
